@@ -266,20 +266,22 @@ Methods == {"Open", "Close", "Pause", "Resume", "Cleanup", "UseStore", "Shutdown
 EnvSteps == {"CancelRet", "Tick", "Consume"}
 LookupOps == {"Processing", "InBlock", "OutBlock", "BlockSent", "Completed", "ReqUpdated", "InResp", "ReqCancelled", "SendErr"}
 
-(* enabledness (everything else would block on a lock, or is not something graphsync / the manager does) *)
+(* enabledness (everything else could block on a channel lock - whichever channel: the replays must not depend on the
+   adapter agreeing with the model about which channel a call belongs to -, or is not something graphsync / the manager does) *)
 Enabled(s, a) ==
-  CASE a.op = "Open" -> ~s.opn.active /\ ~s.shut /\ s.nreq < Len(Pool) /\ a.c \in AllChids
-    [] a.op \in {"Close", "Pause", "Resume", "Cleanup"} -> a.c \in AllChids /\ ~Locked(s, a.c)
+  LET free == ~s.opn.active IN      \* no OpenChannel is parked holding a channel lock: scripts take a channel lock only then
+  CASE a.op = "Open" -> free /\ ~s.shut /\ s.nreq < Len(Pool) /\ a.c \in AllChids
+    [] a.op \in {"Close", "Pause", "Resume", "Cleanup"} -> a.c \in AllChids /\ free
     [] a.op = "UseStore" -> a.c \in AllChids
-    [] a.op = "Shutdown" -> ~s.opn.active
+    [] a.op = "Shutdown" -> free
     [] a.op = "CancelRet" -> s.opn.active /\ s.opn.cret = "pending" /\ s.opn.creq = a.r
     [] a.op = "Tick" -> s.opn.active /\ s.opn.pc = "wait"
     [] a.op = "Consume" -> a.r \in PoolSet /\ s.cons[a.r].st = "run"
     [] a.op = "OutReqHook" -> a.ext \in {"none", "malformed"} /\ a.r \notin PoolSet
     [] a.op = "InReq" -> IF a.ext \in {"req", "resp"}
-                         THEN s.nreq + (IF s.opn.active THEN 1 ELSE 0) < Len(Pool) /\ a.r = NextReq(s) /\ ~Locked(s, Implied(a.p, a.ext, a.tid))
+                         THEN free /\ s.nreq < Len(Pool) /\ a.r = NextReq(s)
                          ELSE a.r \notin PoolSet
-    [] a.op = "ReqCancelled" -> ~(Mapped(s, a.r) /\ Locked(s, Owner(s, a.r)))
+    [] a.op = "ReqCancelled" -> free
     [] a.op \in Callbacks -> TRUE
     [] OTHER -> FALSE
 
